@@ -471,4 +471,109 @@ theorem foldl_skip_dirty (f : Nat) : ∀ (l : List Nat) (s : State) (i : Nat),
     · exact .inr ⟨List.mem_cons_of_mem _ h1.1, by rw [← hr1.obs]; exact h1.2.1,
         by rw [← hr1.kind]; exact h1.2.2⟩
 
+/-! ## the effect flags `dirty` / `chan` / `woken` under marking -/
+
+theorem notify_get (s : State) (id i : Nat) :
+    (notify s id).get i =
+      if (s.get id).alive = true ∧ id = i ∧ i < s.nodes.length then
+        { s.get i with chan := true, woken := true } else s.get i := by
+  unfold notify
+  split
+  · next h =>
+    have : (s.get id).alive = false := by simpa using h
+    simp [this]
+  · next h =>
+    have ha : (s.get id).alive = true := by simpa using h
+    simp only
+    split
+    · rw [State.emit_get, State.get_upd]; simp [ha]
+    · rw [State.get_upd]; simp [ha]
+
+theorem notify_flag (s : State) (id : Nat) : FlagRel s (notify s id) := by
+  have g := notify_get s id
+  refine ⟨fun i h => ?_, fun i h => ?_, fun i h => ?_, fun i h => ?_, fun i h => ?_⟩
+  · rw [g]; split <;> exact h
+  · rw [g]; split
+    · rfl
+    · exact h
+  · rw [g]; split
+    · rfl
+    · exact h
+  · rw [g] at h; split at h
+    · exact .inl h
+    · exact .inl h
+  · rw [g] at h ⊢; split
+    · exact .inr rfl
+    · next hn => rw [if_neg hn] at h; exact .inl h
+
+theorem foldl_flagRel (g : State → Nat → State) (hg : ∀ s x, FlagRel s (g s x)) :
+    ∀ (l : List Nat) (s : State), FlagRel s (l.foldl g s)
+  | [], s => FlagRel.refl s
+  | x :: l, s => (hg s x).trans (foldl_flagRel g hg l (g s x))
+
+theorem markCheck_flag : ∀ (f : Nat) (s : State) (y : Nat), FlagRel s (markCheck f s y)
+  | 0, s, _ => FlagRel.refl s
+  | f + 1, s, y => by
+    unfold markCheck
+    split
+    · exact FlagRel.refl s
+    · exact notify_flag s y
+    · have h1 : FlagRel s (if (s.get y).st != .dirty then s.upd y fun n => { n with st := .check } else s) := by
+        split
+        · exact FlagRel.of_upd s y _ (fun _ => ⟨rfl, rfl, rfl⟩)
+        · exact FlagRel.refl s
+      exact h1.trans (foldl_flagRel _ (fun s x => markCheck_flag f s x) _ _)
+
+theorem markDirty_flag (f : Nat) (s : State) (y : Nat) : FlagRel s (markDirty f s y) := by
+  unfold markDirty
+  split
+  · exact FlagRel.refl s
+  · next hk =>
+    split
+    · exact FlagRel.refl s
+    · next ha =>
+      have hal : (s.get y).alive = true := by simpa using ha
+      have hlt : y < s.nodes.length := s.lt_of_kind_ne (by rw [hk]; simp)
+      have g : ∀ i, (notify (s.upd y fun n => { n with dirty := true }) y).get i =
+          if y = i then { s.get i with dirty := true, chan := true, woken := true } else s.get i := by
+        intro i
+        have ge : (s.upd y fun n => { n with dirty := true }).get y = { s.get y with dirty := true } :=
+          State.get_upd_same _ _ hlt
+        rw [notify_get, ge]
+        by_cases hyi : y = i
+        · subst hyi
+          rw [if_pos ⟨hal, rfl, by simpa using hlt⟩, if_pos rfl, ge]
+        · rw [if_neg (fun hc => hyi hc.2.1), if_neg hyi, State.get_upd_ne _ _ hyi]
+      refine ⟨fun i h => ?_, fun i h => ?_, fun i h => ?_, fun i h => ?_, fun i h => ?_⟩
+      · rw [g]; split
+        · rfl
+        · exact h
+      · rw [g]; split
+        · rfl
+        · exact h
+      · rw [g]; split
+        · rfl
+        · exact h
+      · rw [g] at h ⊢; split
+        · exact .inr ⟨rfl, rfl⟩
+        · next hn => rw [if_neg hn] at h; exact .inl h
+      · rw [g] at h ⊢; split
+        · exact .inr rfl
+        · next hn => rw [if_neg hn] at h; exact .inl h
+  · have h1 : FlagRel s (s.upd y fun n => { n with st := .dirty }) :=
+      FlagRel.of_upd s y _ (fun _ => ⟨rfl, rfl, rfl⟩)
+    exact h1.trans (foldl_flagRel _ (fun s x => markCheck_flag f s x) _ _)
+
+/-- what `markDirty` does to a live effect -/
+theorem markDirty_eff_flags (f : Nat) (s : State) (y : Nat) (hk : (s.get y).kind = .eff)
+    (ha : (s.get y).alive = true) :
+    ((markDirty f s y).get y).dirty = true ∧ ((markDirty f s y).get y).chan = true ∧
+    ((markDirty f s y).get y).woken = true := by
+  have hlt : y < s.nodes.length := s.lt_of_kind_ne (by rw [hk]; simp)
+  unfold markDirty
+  rw [hk]
+  simp only [ha, Bool.not_true, Bool.false_eq_true, if_false]
+  rw [notify_get, State.get_upd_same _ _ hlt]
+  simp [ha, hlt]
+
 end Leptos.Reactive
